@@ -2269,11 +2269,10 @@ def _ctor_param_index(mod, cls, pname):
   return names.index(pname)
 
 
-@rule("R10.10", "C10", floor=5)
-def r10_10(ctx):
-  """On every class-creation path the row of direct bases reaches the duplicate
-  test with its repetitions intact."""
-  rp = _RowProvenance(ctx)
+def _bases_row_sites(ctx):
+  """The five anchored sites of the row of direct bases (shared by R10.10 and
+  rules/c10_round5.py): (construct, module, function, row expression,
+  statement, expected roots)."""
   sites = []
   # (1) stub classes: the parser's pytd.Class(bases=..)
   mod = get_module(ctx, DEFS)
@@ -2336,6 +2335,15 @@ def r10_10(ctx):
   sites.append(("BuildClass.call:ClassBuilderProperties.bases", cm, fn5,
                 [k.value for k in props[0].keywords if k.arg == "bases"][0],
                 cm.enclosing_stmt(props[0]), {"attr:args.posargs"}))
+  return sites
+
+
+@rule("R10.10", "C10", floor=5)
+def r10_10(ctx):
+  """On every class-creation path the row of direct bases reaches the duplicate
+  test with its repetitions intact."""
+  rp = _RowProvenance(ctx)
+  sites = _bases_row_sites(ctx)
   for construct, m, f, expr, stmt, must in sites:
     try:
       roots = rp.prov(m, f, expr, stmt, construct)
